@@ -102,19 +102,18 @@ int strcmp(const char *a, const char *b) {
  * contents are ARBITRARY except inside the windows a harness registered beforehand (ghost
  * positions whose preservation it wants to observe); the old object is freed.  This is weaker
  * than the real realloc, i.e. an over-approximation. */
-struct cqv_keep_s { const void *obj; size_t off; size_t len; } cqv_keep[5];
-typedef struct { unsigned char b[80]; } cqv_blk80;
+struct cqv_keep_s { const void *obj; size_t off; size_t len; } cqv_keep[10];
 void *realloc(void *p, size_t n) {
   if (!p) return malloc(n);
   __CPROVER_precondition(__CPROVER_DYNAMIC_OBJECT(p) && __CPROVER_POINTER_OFFSET(p) == 0, "realloc: pointer from malloc");
   size_t old = __CPROVER_OBJECT_SIZE(p);
   unsigned char *q = malloc(n);
   if (!q) return NULL;
-  for (int w = 0; w < 5; w++) {
+  for (int w = 0; w < 10; w++) {
     if (cqv_keep[w].obj == p && cqv_keep[w].off + cqv_keep[w].len <= old && cqv_keep[w].off + cqv_keep[w].len <= n) {
       const unsigned char *src = (const unsigned char *)p + cqv_keep[w].off;
       unsigned char *dst = q + cqv_keep[w].off;
-      if (cqv_keep[w].len == 80) *(cqv_blk80 *)dst = *(const cqv_blk80 *)src;
+      if (cqv_keep[w].len == 8) *(uint64_t *)dst = *(const uint64_t *)src;
       else if (cqv_keep[w].len == 4) *(uint32_t *)dst = *(const uint32_t *)src;
       else if (cqv_keep[w].len == 2) *(uint16_t *)dst = *(const uint16_t *)src;
     }
